@@ -676,6 +676,26 @@ func checkC17(c *Ctx, rt *rapid.T) {
 		}
 		c.Stats.Probe("world-with-consecutive-33-63KB-trees")
 	}
+	if g.Rare(1, 5, "sharedsubtree") {
+		// the same subtree as a direct entry of a tree and of one of that
+		// tree's descendants, holding the biggest blob: whichever path it is
+		// cited under must not depend on who gets there first
+		big := w.Add(NewObject(KBlob, append([]byte("shared subtree blob "), make([]byte, 9000)...)))
+		sub := w.Add(NewObject(KTree, EncodeTree([]TreeEntry{{Mode: 0o100644, Name: "big.bin", OID: big.ID}})))
+		inner := w.Add(NewObject(KTree, EncodeTree([]TreeEntry{{Mode: 0o040000, Name: "x", OID: sub.ID}})))
+		es := []TreeEntry{{Mode: 0o040000, Name: "a", OID: inner.ID}, {Mode: 0o040000, Name: "x", OID: sub.ID}}
+		if g.Bool("thirdcopy") {
+			es = append(es, TreeEntry{Mode: 0o040000, Name: "b", OID: inner.ID}, TreeEntry{Mode: 0o040000, Name: "y", OID: sub.ID})
+		}
+		SortTreeEntries(es)
+		root := w.Add(NewObject(KTree, EncodeTree(es)))
+		cs := CommitSpec{Tree: root.ID, Author: ident("A", 1700000000, "+0000"), Committer: ident("C", 1700000000, "+0000"), Message: "shared subtree\n"}
+		co := w.Add(NewObject(KCommit, EncodeCommit(cs)))
+		if !refConflicts(refSet(w), "refs/heads/shared") {
+			w.Refs = append(w.Refs, Ref{Name: "refs/heads/shared", OID: co.ID})
+		}
+		c.Stats.Probe("world-with-a-subtree-shared-between-a-tree-and-its-descendant")
+	}
 	if g.Rare(1, 5, "longchain") {
 		// enough history for git's automatic maintenance thresholds (100 commits
 		// without a commit-graph, ...): nothing git-sizer runs may trip them
